@@ -547,9 +547,6 @@ func histStates(w *World, path string, ntok, radius int, rng *rand.Rand) []State
 	}
 	out := []StateSpec{}
 	for _, file := range sortedKeys(w.Docs) {
-		if strings.HasSuffix(file, ".json") {
-			continue
-		}
 		src := []byte(w.Docs[file])
 		toks := LexToks(src)
 		if len(toks) == 0 {
